@@ -92,9 +92,15 @@ def fam_waitn_mon(rng):
         # reader-mode caller: the flag is set in an earlier write section, so the signaller must ALSO wait for the
         # caller to be inside nsync_wait_n: it cannot tell; give the caller a deadline-free retry instead (skip rd)
         lines[-1] = "fiber lock mu0 ; wr x0 1 ; waitn mu0 inf %s ; unlock mu0" % " ".join(objs)
-    lines.append("fiber " + " ; ".join(["yield"] * rng.randrange(0, 3) + ["lock mu0", "muwait mu0 c0 inf", rng.choice(["signal cv0", "broadcast cv0"]), "unlock mu0"]))
+    churn = rng.random() < 0.5
+    lines.append("fiber " + " ; ".join(["yield"] * rng.randrange(0, 3) + ["lock mu0", "muwait mu0 c0 inf", "broadcast cv0" if churn else rng.choice(["signal cv0", "broadcast cv0"]), "unlock mu0"]))
     if rng.random() < 0.3:
         lines.append("fiber yield ; is_notified n0 ; ctr_value k0")
+    if churn:
+        # a second nsync_wait_n caller registering on and deregistering from the same cv again and again (its deadline
+        # has passed or is about to): whatever it does to the cv's state must not hide the other caller from the
+        # waker.  The waker broadcasts (a signal may legitimately be consumed by this caller).
+        lines.append("fiber " + " ; ".join(["yield"] * rng.randrange(0, 2) + ["waitn - %s cv0" % rng.choice(["p1", "p300", "p2000", "p1"]) for _ in range(rng.choice([3, 5, 8]))]))
     return lines
 
 
@@ -117,6 +123,33 @@ def fam_timed_contended(rng):
             hold = ["yield"] * rng.randrange(0, 5)
             ops += ["lock mu0"] + hold + ["wr x0 1", "wr x1 1"] + (["signal cv0"] if rng.random() < 0.4 else []) + ["unlock mu0", "lock mu0", "wr x0 0", "wr x1 0", "unlock mu0"]
         lines.append("fiber " + " ; ".join(ops))
+    return lines
+
+
+def fam_muc_eqmix(rng):
+    """C06: waiters whose conditions use DIFFERENT functions on equal / eq-equivalent arguments, all supplying the
+    same condition_arg_eq (ca: x0 == 1, cb: x0 >= 1, cc: x1 == 1, cd: x1 >= 1), next to each other in the queue:
+    they must not be treated as one condition.  The setters stop at x0 = 2, x1 = 2: the `==` waiters can never be
+    satisfied (they have deadlines, or the scenario may legitimately block), every `>=` waiter must be woken by the
+    nsync_mu_unlock that made its condition true (oracle muwait-missed at quiescence, stuck otherwise)."""
+    lines = ["sem %s" % rng.choice(["counting", "binary"]), "objs mu=1 cv=0 var=2", "var x0 0 mu0", "var x1 0 mu0",
+             "cond c0 eq x0 1 eq", "cond c1 ge x0 1 eq", "cond c2 eq x1 1 eq", "cond c3 ge x1 1 eq", "cond c4 ge x0 1"]
+    n = rng.choice([2, 3, 3, 4])
+    blocked_forever = False
+    for i in range(n):
+        c = rng.choice(["c0", "c1", "c1", "c2", "c3", "c4"]) if i else rng.choice(["c0", "c2"])
+        if c in ("c0", "c2"):
+            dl = rng.choice(["inf", "inf", "p400000", "p2000000"])
+            blocked_forever = blocked_forever or dl == "inf"
+        else:
+            dl = "inf"
+        rd = rng.random() < 0.3
+        lines.append("fiber " + " ; ".join(["yield"] * rng.randrange(0, 2) + ["rlock mu0" if rd else "lock mu0", "muwait mu0 %s %s" % (c, dl), "runlock mu0" if rd else "unlock mu0"]))
+    lines.append("fiber " + " ; ".join(["yield"] * rng.randrange(1, 4) + ["lock mu0", "wr x0 2", "unlock mu0"] + ["yield"] * rng.randrange(0, 2) + ["lock mu0", "wr x1 2", "unlock mu0"]))
+    if rng.random() < 0.4:
+        lines.append("fiber " + " ; ".join(["yield"] * rng.randrange(0, 3) + ["rlock mu0", "rd x0", "runlock mu0"]))
+    if blocked_forever:
+        lines.append("expect stuck-ok")
     return lines
 
 
@@ -396,7 +429,7 @@ except Exception:
     _gm = None
 
 FAMILIES = {"alloc_fail": fam_alloc_fail, "note": _gn.fam_note, "note_f4": _gn.fam_note_f4, "note_f4b": _gn.fam_note_f4b, "note_f7": _gn.fam_note_f7, "refcount": fam_refcount, "starve": fam_starve, "cv_rsignal": fam_cv_rsignal, "ctr": fam_ctr, "once": fam_once, "futex": fam_futex,"core": fam_core, "cv": fam_cv, "cv_raw": fam_cv_raw, "muwait": fam_muwait, "debug": fam_debug,
-            "waitn_cv": fam_waitn_cv, "waitn_rep": fam_waitn_rep, "timed_contended": fam_timed_contended, "waitn_mon": fam_waitn_mon, "cancel_only": fam_cancel_only, "mixed": fam_mixed}
+            "waitn_cv": fam_waitn_cv, "waitn_rep": fam_waitn_rep, "muc_eqmix": fam_muc_eqmix, "timed_contended": fam_timed_contended, "waitn_mon": fam_waitn_mon, "cancel_only": fam_cancel_only, "mixed": fam_mixed}
 
 
 if _gw is not None:
